@@ -122,9 +122,9 @@ fn c15_s1_chain_q() {
 }
 
 #[kani::proof]
-#[kani::unwind(8)]
+#[kani::unwind(10)]
 fn c15_s1_chain_t() {
-    s1_chain::<6>()
+    s1_chain::<8>()
 }
 
 /// S1b: the previous_token_pos bookkeeping of the REAL collect_error within one and across two
